@@ -1,7 +1,7 @@
-// ---- prelude/traits.rs : mirror declarations of external traits (R0 re-homing) ----
-// The impls extracted from /repo are type-checked against these declarations, which
-// repeat the std / miniscript signatures.
-pub trait FromStr: Sized {
+// ---- prelude/traits.rs : external traits the extracted impls implement (declared to Verus, not re-defined) ----
+#[verifier::external_trait_specification]
+pub trait ExFromStr: Sized {
+    type ExternalTraitSpecificationFor: core::str::FromStr;
     type Err;
     fn from_str(s: &str) -> Result<Self, Self::Err>;
 }
